@@ -500,25 +500,45 @@ def produced_keys(idx: Index, m: Module, fn, iter_expr):
                     walk_nodes.append(n_)
                     owner.setdefault(id(n_), fx)
             returned = {dotted(r_.value) for r_ in ast.walk(f2) if isinstance(r_, ast.Return) and r_.value is not None}
+            def str_suffix(e, fx, depth=0):
+                """constant tail of a string-valued expression (f-string, concatenation, a name bound to such, a call to
+                a helper all of whose returns have the same constant tail); None when unknown"""
+                if depth > 4:
+                    return None
+                if isinstance(e, ast.JoinedStr):
+                    return str(e.values[-1].value) if e.values and isinstance(e.values[-1], ast.Constant) else None
+                if isinstance(e, ast.Constant) and isinstance(e.value, str):
+                    return e.value
+                if isinstance(e, ast.BinOp) and isinstance(e.op, ast.Add):
+                    return str_suffix(e.right, fx, depth + 1)
+                if isinstance(e, ast.Name):
+                    defs = [s3.value for s3 in ast.walk(fx)
+                            if isinstance(s3, ast.Assign) and any(dotted(t) == e.id for t in s3.targets)]
+                    got = {str_suffix(v, fx, depth + 1) for v in defs}
+                    return next(iter(got)) if len(got) == 1 else None
+                if isinstance(e, ast.Call):
+                    dx = (dotted(e.func) or "").split(".")[-1]
+                    g = by_name.get(dx)
+                    if g is None:
+                        return None
+                    got = {str_suffix(r_.value, g, depth + 1) for r_ in ast.walk(g)
+                           if isinstance(r_, ast.Return) and r_.value is not None}
+                    return next(iter(got)) if len(got) == 1 else None
+                return None
             for st in walk_nodes:
                 if isinstance(st, ast.Assign) and isinstance(st.targets[0], ast.Subscript):
                     key = st.targets[0].slice
                     base_is_result = dotted(st.targets[0].value) in returned
-                    if isinstance(key, ast.JoinedStr):
-                        sufs.add(str(key.values[-1].value) if isinstance(key.values[-1], ast.Constant) else None)
+                    suf = str_suffix(key, owner[id(st)])
+                    if suf is not None:
+                        sufs.add(suf)
+                    elif isinstance(key, (ast.JoinedStr, ast.Call)) or base_is_result:
+                        sufs.add(None)
                     elif isinstance(key, ast.Name):
                         defs = [s3.value for s3 in ast.walk(owner[id(st)])
                                 if isinstance(s3, ast.Assign) and any(dotted(t) == key.id for t in s3.targets)]
-                        fdefs = [v for v in defs if isinstance(v, ast.JoinedStr)]
-                        if fdefs:
-                            for v in fdefs:
-                                sufs.add(str(v.values[-1].value) if isinstance(v.values[-1], ast.Constant) else None)
-                            if len(fdefs) != len(defs):
-                                sufs.add(None)
-                        elif base_is_result:
+                        if any(isinstance(v, (ast.JoinedStr, ast.Call)) for v in defs):
                             sufs.add(None)
-                    elif base_is_result:
-                        sufs.add(None)
             if sufs and None not in sufs and len(sufs) == 1:
                 suffix = next(iter(sufs))
     return consts, suffix
